@@ -236,10 +236,22 @@ func runProperty(t *testing.T, prop string, gen *rapid.Generator[Case], run RunF
 		c.Prop = prop
 		if err := safeRun(run, c, st); err != nil {
 			writeFail(prop, c.JSON(), err.Error())
+			if _, ok := err.(fatalViolation); ok {
+				// a deadlocked database cannot be shrunk (every attempt would wait for the watchdog again and the
+				// parked goroutines are never released): report the case as it is and stop this process
+				st.Flush()
+				fmt.Printf("%s violated (not shrunk): %v\ncase: %s\n", prop, err, c.JSON())
+				os.Exit(1)
+			}
 			rt.Fatalf("%s violated: %v\ncase: %s", prop, err, c.JSON())
 		}
 	})
 }
+
+// fatalViolation is a violation after which the process cannot go on (deadlock).
+type fatalViolation struct{ msg string }
+
+func (f fatalViolation) Error() string { return f.msg }
 
 func safeRun(run RunFunc, c Case, st *Stats) (err error) {
 	defer func() {
